@@ -28,6 +28,9 @@ def build(scn):
     u = urls(scn['binding'])
     a = spc.default_assertion(irt=None if scn['sirt'] == 'none' else scn['sirt'], recipient=u[scn['recip']],
                               audiences=[[AUD[x] for x in r] for r in RESTR[scn['aud']]])
+    if scn.get('conf2', 'absent') != 'absent':
+        second = dict(a['conf'][0], recipient=u['url'] if scn['conf2'] == 'own' else u['foreign'])
+        a['conf'] = [second, a['conf'][0]] if scn['conf2first'] else [a['conf'][0], second]
     a_xml = sb.assertion(a)
     body = '<saml:EncryptedAssertion>%s</saml:EncryptedAssertion>' % a_xml if scn['enc'] else a_xml
     r = spc.default_response(irt=None if scn['irt'] == 'none' else scn['irt'], destination=u[scn['dest']])
@@ -72,7 +75,7 @@ def main():
         keep = []
         for c in cases:
             s = c['scn']
-            core = (not s['enc'] and s['binding'] == 'post') or s['endpoint'] == 'otherBindingOnly'
+            core = (not s['enc'] and s['binding'] == 'post') or s['endpoint'] == 'otherBindingOnly' or s['conf2'] != 'absent'
             decided = c['mustAccept'] or c['mustReject']
             if (core and decided and chk.rng.random() < 0.5) or chk.rng.random() < 0.06:
                 keep.append(c)
@@ -99,7 +102,7 @@ def main():
     if nacc == 0 and not chk.violations:
         raise fw.Machinery('no scenario was accepted: templates broken')
     chk.cov['exhaustive'] = thorough
-    chk.cov['rule'] = ('scenarios of SPAddress.tla (53 760 = InResponseTo x confirmation InResponseTo x Destination x audience '
+    chk.cov['rule'] = ('scenarios of SPAddress.tla (InResponseTo x second bearer confirmation (own / foreign Recipient, either order) x InResponseTo x confirmation InResponseTo x Destination x audience '
                       'restrictions x Recipient x allow_unsolicited x conversation info x destination pattern x binding x '
                       'plain/encrypted); thorough replays all, quick half of the decided plain/POST slice plus a seeded 6% sample; '
                       'non-trivial = the contract demands acceptance or rejection')
